@@ -296,3 +296,39 @@ SNAPSHOT_SHALLOW = True
 
 def native_call_args(nat, fname, args):
     return {k: v for k, v in args.items() if not k.startswith("$")}
+
+
+def validate_trusted(nat, rng, n):
+    """the trusted models of pm4py used above, against pm4py itself: the operator values, what ProcessTree(...) stores (and that it leaves the
+    nodes of the children list alone), and  str(tree) == "tau"  <=>  no operator and (no label or the label "tau")"""
+    from pm4py.objects.process_tree.obj import ProcessTree, Operator as PmOp
+    import importlib
+    importlib.import_module("tel2puml.events")       # (logic_detection and events import each other: events first)
+    ld = importlib.import_module("tel2puml.logic_detection")
+    bad, cnt = [], 0
+    want = {"PARALLEL": "+", "XOR": "X", "OR": "O", "LOOP": "*", "SEQUENCE": "->"}
+    for k, v in want.items():
+        cnt += 1
+        if getattr(PmOp, k).value != v or getattr(ld.Operator, k).value != v:
+            bad.append(("Operator", k))
+    cnt += 1
+    if ld.Operator.BRANCH.value != "BR":
+        bad.append(("Operator", "BRANCH"))
+    for _ in range(n):
+        names = [f"e{i}" for i in range(8)] + ["tau"]
+        rng.shuffle(names)
+        shape = _rand_shape(rng, names, 2)
+        t = _mk_tree(nat, shape)
+        cnt += 1
+        model = t.operator is None and (t.label is None or t.label == "tau")
+        if (str(t) == "tau") != model:
+            bad.append(("str", shape))
+        kids = [_mk_tree(nat, _rand_shape(rng, names, 1)) for _ in range(rng.randint(0, 3))]
+        before = [(id(k.parent), k.operator, k.label, list(map(id, k.children))) for k in kids]
+        par = _mk_tree(nat, ["+", []])
+        op = rng.choice([PmOp.PARALLEL, ld.Operator.OR, None])
+        new = ProcessTree(op, par, kids) if rng.random() < 0.5 else ProcessTree(operator=op, parent=par, children=kids, label=None)
+        after = [(id(k.parent), k.operator, k.label, list(map(id, k.children))) for k in kids]
+        if not (new.operator is op and new.parent is par and new.children is kids and new.label is None and before == after and all(new is not c for c in par.children)):
+            bad.append(("ProcessTree(...)", shape))
+    return cnt, bad
